@@ -12,7 +12,48 @@ CLAIMED = {
             "Every publish of thousands of generated histories (both configurations, cached/uncached, several parallelism settings) is compared with a reference model of the directory and a from-scratch blake3 recomputation of the canonical trie root; held = no divergence on the histories executed.",
             "Trusts blake3, the VRF output (checked in C18) and my reading of the hashing spec in akd_core/src/lib.rs (cross-validated: it reproduces the code's roots on the unchanged tree). Histories bounded by the generator (<= 40 batches, universe <= 64, a few 1000-leaf batches).",
             "DESIGN.md 6/C01"),
+    "C02": ("exploration",
+            "runtime monitor: every label looked up after every epoch of generated histories, proof verified and result compared with a reference model",
+            "After every epoch of generated histories (incl. hot-label histories crossing every power-of-two version) every label of the universe is looked up, verified with the public key against the returned epoch hash and compared with the model's (value, version, epoch); batch lookups compared per label; unpublished labels must be refused.",
+            "Model of the specified publish semantics; published hashes tied to the reference by C01. Bounded by generator (versions <= 140, universe <= 24).",
+            "DESIGN.md 6/C02"),
+    "C03": ("exploration",
+            "runtime monitor: key_history for every label/parameter after every epoch, verified and compared with the model's version list; marker arithmetic sweep",
+            "For every published label and HistoryParams in {Complete, MostRecent(1,2,3,total-1,total,total+1,total+5)} after every epoch: proof must verify with the same parameter and yield the model's newest-first list; get_marker_versions swept over boundary u64 triples for panics/insane output.",
+            "Model of the specified semantics; generator bounds (versions <= 140).",
+            "DESIGN.md 6/C03"),
+    "C04": ("exploration",
+            "runtime monitor: audit + audit_verify for all epoch pairs against the hashes publish returned, incl. ranges ending before the latest epoch",
+            "All pairs (s,e) after the last epoch and, for a third of histories, after every epoch; invalid ranges must be refused.",
+            "Published hashes are those returned by publish (C01). Histories <= 40 epochs plus a few 2000-leaf cases.",
+            "DESIGN.md 6/C04"),
+    "C05": ("exploration",
+            "adversarial prover over real tree nodes + ground-truth leaf set: completeness of honest proofs, soundness of every assembled candidate",
+            "Trees built from harness-chosen labels (prefixes of every length); ~10^6 candidate proofs per quick run (every path node as anchor, off-path anchors, altered/swapped children, siblings, directions, hashes, labels, truncated paths, transplants); accepted => statement true in the ground truth.",
+            "Collision resistance of blake3; attack classes are a finite structured family.",
+            "DESIGN.md 6/C05"),
+    "C06": ("exploration",
+            "adversarial lookup-proof builder against honest directories; oracle: accepted => equals model.latest",
+            "Classes A1-A7 (old version with freshness forged from every ancestor, altered fields, cross-label/version/epoch material, marker games, VRF swaps, single-point sub-proof mutations); honest proof must be accepted first.",
+            "Honest roots per C01; finite attack family; no cryptographic reasoning.",
+            "DESIGN.md 6/C06"),
+    "C07": ("exploration",
+            "adversarial history-proof builder against honest directories and a dishonest server (missing/late stale markers); oracle: accepted => equals the model's list",
+            "Classes H1-H8 incl. tombstones under both verifier modes; dishonest trees must make verification fail for histories covering the corrupted retirement.",
+            "Finite attack family; F10 (tombstoned version-1 epoch unbound under AllowMissingValues) is a listed known finding.",
+            "DESIGN.md 6/C07"),
+    "C08": ("exploration",
+            "exhaustive set-level conflict monitor over the real get_marker_versions, validated by replay with the real verifiers on dishonest trees",
+            "Every (E,n,m[,s']) for E<=64 quick / <=512 (lookup) and <=256 (history) thorough, plus sampled tuples to 2^40; pairs with an empty present/absent conflict set can co-verify; real-tree replay confirms the set-level oracle coincides with the real verifiers.",
+            "VRF uniqueness and collision resistance; F3 (lookup marker vs history skip list) is a listed known finding keyed by exact triples.",
+            "DESIGN.md 6/C08"),
+    "C09": ("exploration",
+            "adversarial append-only proof builder from real nodes of a ground-truth tree; end hash obtained the way a dishonest server would; commitment set of the accepted end hash reconstructed",
+            "Classes P1-P8 on single transitions plus list-level mutations (P5/P6) on real directory histories; accepted => every leaf of the start tree still committed unchanged.",
+            "Collision resistance; finite attack family.",
+            "DESIGN.md 6/C09"),
 }
+
 
 NOT_YET = {}
 
